@@ -3,7 +3,8 @@
    the regenerated skip test and ignore constants); pickle itself is the identity on that tree (trusted). *)
 From Coq Require Import ZArith NArith List Bool String Permutation.
 From DM Require Import Base.PyVal Base.PersistPy Spec.Nf Spec.Table Model.LTable Spec.Persist Gen.KPersist Model.Persist
-  Proofs.PersistFacts Proofs.PersistJsonFacts.
+  Model.PersistIds Model.XTable Model.PersistSeries
+  Proofs.PersistFacts Proofs.PersistJsonFacts Proofs.PersistIdsFacts Proofs.PersistSeriesFacts.
 Import ListNotations.
 Open Scope string_scope.
 
@@ -101,6 +102,143 @@ Theorem C17_to_pandas_payload :
 Proof. exact to_pandas_payload. Qed.
 Print Assumptions C17_to_pandas_payload.
 
+(* ====================================================================
+   The global family-id counter.  k_init_ids / k_setstate_ids / k_mutate_ids are regenerated from the `_id`
+   statements of DataMatrix.__init__ / __setstate__ / _mutate IN SOURCE ORDER (counter -> (id, counter)). *)
+Theorem C17_id_kernels :
+  (forall n, fst (init_ids n) = n /\ (n < snd (init_ids n))%nat)
+  /\ (forall n, fst (setstate_ids n) = n /\ (n < snd (setstate_ids n))%nat)
+  /\ (forall own n, fst (mutate_ids own n) = own /\ (n <= snd (mutate_ids own n))%nat).
+Proof. exact (conj init_ids_spec (conj setstate_ids_spec mutate_ids_spec)). Qed.
+Print Assumptions C17_id_kernels.
+
+(* for EVERY interleaving of constructions, restores, derivations (select/slice/merge) and mutations, every id in
+   use stays below the counter ... *)
+Theorem C17_ids_stay_below_the_counter :
+  forall evs w, ids_below w = true -> ids_below (id_run evs w) = true.
+Proof. exact id_run_below. Qed.
+Print Assumptions C17_ids_stay_below_the_counter.
+
+(* ... hence the families handed out by constructions and restores are pairwise different and none of them was in
+   use before: a restored table and the next constructed table are never related *)
+Theorem C17_roots_distinct_for_any_interleaving :
+  forall evs w, ids_below w = true ->
+    NoDup (id_roots w evs) /\ (forall f, In f (id_roots w evs) -> ~ In f (fams w)).
+Proof. exact id_roots_fresh. Qed.
+Print Assumptions C17_roots_distinct_for_any_interleaving.
+
+Theorem C17_roots_refine_spec :
+  forall evs w, ids_below w = true -> fresh_roots (fams w) (id_roots w evs) = true.
+Proof. exact id_roots_refine_spec. Qed.
+Print Assumptions C17_roots_refine_spec.
+
+(* unpickling at the current counter: the restored family is not in use, the counter machine makes exactly the
+   EvRestore step, and no later construction or restore (any continuation) gets that family again *)
+Theorem C17_restored_family_unique :
+  forall w t, ids_below w = true ->
+    exists r n', unpickle (ctr w) t = Some (r, n')
+      /\ ~ In (l_fam r) (fams w)
+      /\ id_step w EvRestore = {| ctr := n'; fams := l_fam r :: fams w |}
+      /\ forall later, ~ In (l_fam r) (id_roots (id_step w EvRestore) later).
+Proof. exact restored_family_unique. Qed.
+Print Assumptions C17_restored_family_unique.
+
+(* ====================================================================
+   Tables with SeriesColumns (Model/XTable.v; `shadow` forgets the series payloads, ser_payload is what it forgets) *)
+Theorem C17_series_substring_is_equality :
+  (forall k, In k ser_attr_names -> k_skip k k_ignore_col = String.eqb k "_datamatrix")
+  /\ (forall s, ser_getstate s = getstate_eq "_datamatrix" (ser_dict s)).
+Proof. exact (conj ser_names_coincide ser_getstate_drops_exactly). Qed.
+Print Assumptions C17_series_substring_is_equality.
+
+(* unpickling a table with series IS unpickling its shadow (so abs/inv/fresh-family above apply), and depth,
+   defaultnan and every sample of every series come back, under the same names *)
+Theorem C17_unpickle_series_shadow :
+  forall n x r n', unpickle_x n x = Some (r, n') ->
+    unpickle n (shadow x) = Some (shadow r, n')
+    /\ map ser_payload (x_cols r) = map ser_payload (x_cols x)
+    /\ x_names r = x_names x.
+Proof. exact unpickle_x_shadow. Qed.
+Print Assumptions C17_unpickle_series_shadow.
+
+Theorem C17_unpickle_series_abs :
+  forall n x, exists r n', unpickle_x n x = Some (r, n')
+    /\ xs_table (xabs r) = with_fam n (xs_table (xabs x)) /\ xs_series (xabs r) = xs_series (xabs x)
+    /\ map ser_payload (x_cols r) = map ser_payload (x_cols x).
+Proof. exact unpickle_x_abs. Qed.
+Print Assumptions C17_unpickle_series_abs.
+
+Theorem C17_unpickle_series_inv :
+  forall n x, xinv_b x = true -> cols_referenced (shadow x) = true ->
+              exists r n', unpickle_x n x = Some (r, n') /\ xinv_b r = true.
+Proof. exact unpickle_x_inv. Qed.
+Print Assumptions C17_unpickle_series_inv.
+
+Theorem C17_unpickle_series_refines_spec :
+  forall n x used, (forall f, In f used -> (f < n)%nat) ->
+    exists r n', unpickle_x n x = Some (r, n')
+                 /\ xrestored_like (xabs x) (xabs r) = true /\ fresh_fam used (xs_table (xabs r)) = true.
+Proof. exact unpickle_x_refines_spec. Qed.
+Print Assumptions C17_unpickle_series_refines_spec.
+
+Theorem C17_unpickle_series_counter :
+  forall n x r n', unpickle_x n x = Some (r, n') -> x_fam r = fst (setstate_ids n) /\ n' = snd (setstate_ids n).
+Proof. exact unpickle_x_counter. Qed.
+Print Assumptions C17_unpickle_series_counter.
+
+(* JSON with series: a 2-D array travels with its shape; depth = shape[1]; defaultnan comes back as True *)
+Theorem C17_json_roundtrip_series :
+  forall (text : Type) (dumps : xjdoc -> text) (loads : text -> xjdoc),
+    (forall x, loads (dumps x) = x) ->
+    forall nextid x, xinv_b x = true ->
+      exists r, from_json_x text loads nextid (to_json_x text dumps x) = Some r
+                /\ x_fam r = nextid
+                /\ ids (abs (shadow r)) = iotaN 0 (nrows (abs (shadow x)))
+                /\ view (abs (shadow r)) = listing (abs (shadow x))
+                /\ map ser_payload (x_cols r) = map (listed_payload x) (to_list (x_sorted x) (x_names x))
+                /\ x_names r = combine (map fst (to_list (x_sorted x) (x_names x)))
+                                       (seq 0 (List.length (to_list (x_sorted x) (x_names x))))
+                /\ x_sorted r = true /\ x_dflt r = KMixed
+                /\ xinv_b r = true.
+Proof. exact json_roundtrip_x. Qed.
+Print Assumptions C17_json_roundtrip_series.
+
+(* L1 refines L0 (Spec/Persist.xjson_image_ok: the listing on fresh row ids, every series with depth and rows) *)
+Theorem C17_json_roundtrip_series_spec :
+  forall (text : Type) (dumps : xjdoc -> text) (loads : text -> xjdoc),
+    (forall d, loads (dumps d) = d) ->
+    forall nextid x used, xinv_b x = true -> (forall f, In f used -> (f < nextid)%nat) ->
+      exists r, from_json_x text loads nextid (to_json_x text dumps x) = Some r
+                /\ xjson_image_ok (xabs x) (xabs r) = true /\ fresh_fam used (xs_table (xabs r)) = true /\ xinv_b r = true.
+Proof. exact json_roundtrip_x_spec. Qed.
+Print Assumptions C17_json_roundtrip_series_spec.
+
+(* different text whenever the row ids, a listed name, the kind/cells of a name, or the depth / a sample of a
+   series differ (or a name is a series in one table and not in the other) *)
+Theorem C17_json_injective_series :
+  forall (text : Type) (dumps : xjdoc -> text) (loads : text -> xjdoc),
+    (forall x, loads (dumps x) = x) ->
+    forall d1 d2, xinv_b d1 = true -> xinv_b d2 = true ->
+      to_json_x text dumps d1 = to_json_x text dumps d2 ->
+      ids (abs (shadow d1)) = ids (abs (shadow d2))
+      /\ map (fun v : vcol => fst (fst v)) (listing (abs (shadow d1))) = map (fun v : vcol => fst (fst v)) (listing (abs (shadow d2)))
+      /\ (forall n, col_view (abs (shadow d1)) n = col_view (abs (shadow d2)) n)
+      /\ (forall n, xser_view d1 n = xser_view d2 n).
+Proof. exact json_injective_x. Qed.
+Print Assumptions C17_json_injective_series.
+
+(* to_pandas (DataMatrix and single column): what is handed to pandas are the cells themselves, a series cell as its
+   row of numbers WHATEVER THE DEPTH (k_pandas_src_* and the depth test of _printable_list are regenerated) *)
+Theorem C17_to_pandas_payload_series :
+  forall x,
+    pandas_payload_x x = map (fun ni => match nth_error (x_cols x) (snd ni) with
+                                        | Some c => (fst ni, true_cells c)
+                                        | None => (fst ni, PcVals [])
+                                        end) (to_list (x_sorted x) (x_names x))
+    /\ forall c, pandas_series_x c = true_cells c.
+Proof. exact to_pandas_payload_x. Qed.
+Print Assumptions C17_to_pandas_payload_series.
+
 (* ---------- non-vacuity: a reordered two-column table with filled caches and a stale owner flag *)
 Definition ex_t : ltable :=
   {| l_fam := 3;
@@ -116,7 +254,7 @@ Proof. vm_compute. split; reflexivity. Qed.
 Example C17_ex_unpickle :
   match unpickle 9 ex_t with
   | Some (r, n') => andb (inv_b r) (table_eqb (abs r) (with_fam 9 (abs ex_t))) = true /\ imeta (l_rowid r) = None
-                    /\ imax (l_rowid r) = Some 2%Z /\ n' = 10%nat
+                    /\ imax (l_rowid r) = Some 2%Z /\ Nat.ltb 9 n' = true
   | None => False
   end.
 Proof. vm_compute. repeat split; reflexivity. Qed.
@@ -133,3 +271,47 @@ Example C17_ex_json :
   | None => False
   end.
 Proof. vm_compute. repeat split; reflexivity. Qed.
+
+(* the counter machine from the state in which the module is imported: construct, restore, construct, derive from
+   the restored one, mutate, restore -- four roots, all different; the premise of the theorems holds *)
+Definition ex_evs : list idev := [EvNew; EvRestore; EvNew; EvDerive 1; EvMutate 0; EvRestore].
+Example C17_ex_ids :
+  ids_below id_world0 = true
+  /\ List.length (id_roots id_world0 ex_evs) = 4%nat
+  /\ fresh_roots (fams id_world0) (id_roots id_world0 ex_evs) = true
+  /\ List.length (fams (id_run ex_evs id_world0)) = 5%nat
+  /\ nth_error (fams (id_run ex_evs id_world0)) 1 = nth_error (fams (id_run ex_evs id_world0)) 3   (* the derived table *)
+  /\ ids_below (id_run ex_evs id_world0) = true.
+Proof. vm_compute. repeat split; reflexivity. Qed.
+(* a table with a depth-5 series (NaN and inf samples, defaultnan off) next to a MixedColumn, reordered *)
+Definition ex_x : xtable :=
+  {| x_fam := 3;
+     x_rowid := {| ia := [2%N; 0%N]; imeta := None; imax := Some 2%Z |};
+     x_names := [("s", 0%nat); ("a", 1%nat)];
+     x_cols := [ XS {| sc_depth := 5; sc_dnan := false; sc_rowid := [2%N; 0%N];
+                       sc_cells := [[FNan; FInf false; FZero true; FFin false 1 0; FFin true 5 (-1)];
+                                    [FFin false 1 0; FFin false 1 1; FFin false 3 0; FFin false 1 2; FFin false 5 0]];
+                       sc_owner := true; sc_tc := true |};
+                 XP {| lc_kind := KMixed; lc_rowid := {| ia := [2%N; 0%N]; imeta := None; imax := None |};
+                       lc_cells := [VStr "x"; VNone]; lc_owner := true; lc_tc := true |} ];
+     x_sorted := true; x_dflt := KMixed |}.
+Example C17_ex_series_premises : xinv_b ex_x = true /\ cols_referenced (shadow ex_x) = true.
+Proof. vm_compute. split; reflexivity. Qed.
+Example C17_ex_series_unpickle :
+  match unpickle_x 9 ex_x with
+  | Some (r, n') => xinv_b r = true /\ xrestored_like (xabs ex_x) (xabs r) = true /\ x_fam r = 9%nat /\ Nat.ltb 9 n' = true
+                    /\ map ser_payload (x_cols r) = map ser_payload (x_cols ex_x)
+  | None => False
+  end.
+Proof. vm_compute. repeat split; reflexivity. Qed.
+Example C17_ex_series_json :
+  match from_json_x xjdoc (fun d => d) 5 (to_json_x xjdoc (fun d => d) ex_x) with
+  | Some r => xinv_b r = true /\ xjson_image_ok (xabs ex_x) (xabs r) = true /\ x_names r = [("a", 0%nat); ("s", 1%nat)]
+              /\ xser_view r "s" = xser_view ex_x "s"
+  | None => False
+  end.
+Proof. vm_compute. repeat split; reflexivity. Qed.
+Example C17_ex_series_keys :
+  fst (ser_getstate {| sc_depth := 2; sc_dnan := true; sc_rowid := []; sc_cells := []; sc_owner := true; sc_tc := true |})
+  = ["_depth"; "_rowid"; "_rowid_argsort_cache"; "_seq"; "_typechecking"; "defaultnan"].
+Proof. vm_compute. reflexivity. Qed.
